@@ -86,10 +86,10 @@ Print Assumptions C06_single_sets_only_its_field.
 
 (* a key, inside a dataclass's section, that names none of its fields (and is not the discarded type tag):
    RuntimeError when the nested sections themselves are accepted ... *)
-Theorem C06_unknown_key : forall fs m k,
+Theorem C06_unknown_key : forall cm fs m k,
   In k (keys m) -> str_in k (keys fs) = false -> str_in k DISCARD_GEN = false ->
   (forall n c s, In (n, c) fs -> lookup n m = Some s -> exists c', set_default_tree_gen c s = Ok c') ->
-  set_default_tree_gen (WClass fs) (PMap m) = Err (Raise "RuntimeError").
+  set_default_tree_gen (WClass cm fs) (PMap m) = Err (Raise "RuntimeError").
 Proof. exact unknown_key_runtime_error. Qed.
 Print Assumptions C06_unknown_key.
 
@@ -153,20 +153,27 @@ Theorem C06_type_key_ignored : forall nm ws inst sdefs acp_arg ctor cg clif cli,
 Proof. exact type_key_ignored. Qed.
 Print Assumptions C06_type_key_ignored.
 
-Theorem C06_type_key_in_section_ignored : forall fs m v,
+Theorem C06_type_key_in_section_ignored : forall cm fs m v,
   str_in "_type_" (keys fs) = false ->
-  set_default_tree_gen (WClass fs) (PMap (("_type_", v) :: m)) = set_default_tree_gen (WClass fs) (PMap m).
+  set_default_tree_gen (WClass cm fs) (PMap (("_type_", v) :: m)) = set_default_tree_gen (WClass cm fs) (PMap m).
 Proof. exact type_key_in_section_ignored. Qed.
 Print Assumptions C06_type_key_in_section_ignored.
+
+(* Optional[Dataclass] = None members are judged by the correspondence run; proved here only: a member (Optional or
+   not) to which a document gives a section is instantiated - it does not come back as None - whatever its fields hold *)
+Theorem C06_optional_member_given_a_section : forall b cm fs m w' cli r,
+  set_default_tree_gen (WClass cm fs) (PMap m) = Ok w' -> finish_gen b w' cli = Ok r -> is_map r = true.
+Proof. exact optional_member_given_a_section. Qed.
+Print Assumptions C06_optional_member_given_a_section.
 
 (* non-vacuity: parse(Root, default=Root(..), config_path=[f1, f2], args="--config_path g1 --d 9") on
      class In: c: str = "c1"; d: int = 4; e: Optional[int] = None
      class Root: a: int = 1; b: int (required); n: In
    every layer wins somewhere; the hypotheses of C06_layers_partial hold at every field; an unknown key is refused *)
 Definition ex_ws : list (string * wtree) :=
-  [("config", WClass [("a", WLeaf false (Some (PVal (VInt 1))) None PNull);
+  [("config", WClass CPlain [("a", WLeaf false (Some (PVal (VInt 1))) None PNull);
                       ("b", WLeaf false None None PNull);
-                      ("n", WClass [("c", WLeaf false (Some (PVal (VStr "c1"))) None PNull);
+                      ("n", WClass CPlain [("c", WLeaf false (Some (PVal (VStr "c1"))) None PNull);
                                     ("d", WLeaf false (Some (PVal (VInt 4))) None PNull);
                                     ("e", WLeaf true (Some PNull) None PNull)])])].
 Definition ex_inst : ptree :=
